@@ -325,6 +325,7 @@ class Hist(Scenario):
                 self.g("add", "--", f)
             idx = self.w.ogit("cat-file", "blob", ":" + f, raw=True)
             if idx.rc != 0:
+                self.w.git("reset", "-q", "--", f, plain=True, tick=False)
                 continue
             il = [l[:-1] if l.endswith("\r") else l for l in N.split_lines(idx.out.decode("utf-8", "replace"))]
             cur = self.read(f)
@@ -332,6 +333,9 @@ class Hist(Scenario):
             pos = [i for i, l in enumerate(cur) if key(l) and key(l) not in hk and l in il and not self.ledger.is_decoy(l)
                    and (not own_only or self.ledger.expected(l) == "human")]
             if not pos:
+                # nothing to reword here: take the file out of the index again (a stale staged version would be committed by a later
+                # plain `git commit` while the work tree has moved on - finding D82's shape)
+                self.w.git("reset", "-q", "--", f, plain=True, tick=False)
                 continue
             i = rng.choice(pos[:2] if rng.random() < 0.6 else pos)      # mostly a line near the top: staged lines below it must not shift
             if f in self.pending_initial_files() and not self.profile["human_edit_on_pending_unreported"]:
